@@ -303,6 +303,15 @@ def layout(lines, rng, style="random"):
     """render the (depth, tokens) lines; blanks between tokens are kept at least where the tokens need them"""
     r = rng
     out = []
+    # sometimes a closing brace shares its line with what follows (`} break;`, `} return x;`, `} else`, `}}`)
+    joined = []
+    for d, toks in lines:
+        if (style != "clean" and joined and joined[-1][1] == "}" and toks and not toks.startswith("#") and "\\" not in toks
+                and "//" not in toks and r.random() < 0.2):
+            joined[-1] = (joined[-1][0], "} " + toks)
+        else:
+            joined.append((d, toks))
+    lines = joined
     for d, toks in lines:
         for sub in toks.split("\n"):
             if sub.startswith("#") or "\\" in sub:
